@@ -156,7 +156,7 @@ func H_C15_parse() {
 	got, perr := parser.ParsePayload([]byte(memo))
 	if perr != nil {
 		verif.Cover("refused")
-		verif.Assert(!(kind == 0 && extra == 0 && wrong == 0 && (tail == 0 || tail == 4)), "memo-of-a-constructor-built-payload-is-accepted")
+		verif.Assert(!(kind == 0 && extra == 0 && wrong == 0 && tail == 0), "memo-of-a-constructor-built-payload-is-accepted")
 		return
 	}
 	verif.Cover("accepted")
